@@ -75,3 +75,19 @@ def insert_automatic_unnamed(e, k, family="paragraph", **kw):
     ga, gb = doc.get_style(family, ra), doc.get_style(family, rb)
     ok = ok and ga._Element__element is a._Element__element and gb._Element__element is b._Element__element
     return (not ok), f"generated names {ra!r}, {rb!r}; automatic {family} names now {names}"
+
+
+def insert_auto_interleaved(k, named_first, family="paragraph", **kw):
+    doc = Document("text")
+    a, b, c = Style(family), Style(family), _mk(family, "odfdo_auto_" + str(k))
+    if named_first:
+        rc = doc.insert_style(c, automatic=True)
+        ra = doc.insert_style(a, automatic=True)
+    else:
+        ra = doc.insert_style(a, automatic=True)
+        rc = doc.insert_style(c, automatic=True)
+    rb = doc.insert_style(b, automatic=True)
+    names = [s.name for s in doc.get_styles(family, automatic=True)]
+    ok = len(names) == len(set(names)) and rb not in (ra, rc) and doc.get_style(family, rb)._Element__element is b._Element__element
+    ok = ok and doc.get_style(family, rc)._Element__element is c._Element__element
+    return (not ok), f"names returned {ra!r}, {rc!r}, {rb!r}; automatic {family} names {names}"
